@@ -173,10 +173,10 @@ func init() {
 
 // closeSite describes one close(ch) in the program.
 type closeSite struct {
-	fn      *ssa.Function
-	in      ssa.Instruction
-	field   string // "Owner.field" or "local"
-	once    bool
+	fn       *ssa.Function
+	in       ssa.Instruction
+	field    string // "Owner.field" or "local"
+	once     bool
 	deferred bool
 }
 
@@ -607,15 +607,15 @@ func c12Handshakes(c *Ctx) {
 
 // shutdown channels per component
 var dyingTable = map[string][]string{
-	"partitionConsumer.dispatcher":                 {"partitionConsumer.dying"},
-	"partitionConsumer.responseFeeder":             {"partitionConsumer.dying"},
-	"consumerGroupSession.heartbeatLoop":           {"consumerGroupSession.hbDying"},
-	"consumerGroup.loopCheckPartitionNumbers":      {"consumerGroup.closed"},
-	"consumerGroup.retryNewSession":                {"consumerGroup.closed"},
-	"offsetManager.fetchInitialOffset":             {"offsetManager.closing"},
-	"offsetManager.mainLoop":                       {"offsetManager.closing"},
-	"client.backgroundMetadataUpdater":             {"client.closer"},
-	"brokerProducer.run":                           {"brokerProducer.stopchan"},
+	"partitionConsumer.dispatcher":            {"partitionConsumer.dying"},
+	"partitionConsumer.responseFeeder":        {"partitionConsumer.dying"},
+	"consumerGroupSession.heartbeatLoop":      {"consumerGroupSession.hbDying"},
+	"consumerGroup.loopCheckPartitionNumbers": {"consumerGroup.closed"},
+	"consumerGroup.retryNewSession":           {"consumerGroup.closed"},
+	"offsetManager.fetchInitialOffset":        {"offsetManager.closing"},
+	"offsetManager.mainLoop":                  {"offsetManager.closing"},
+	"client.backgroundMetadataUpdater":        {"client.closer"},
+	"brokerProducer.run":                      {"brokerProducer.stopchan"},
 }
 
 func c12Dying(c *Ctx) { dyingRule(c, 9, func(string) bool { return true }) }
